@@ -60,6 +60,7 @@ type Env struct {
 	Stub, SkipEnsure, WithResets bool
 	External                     bool // destination package differs from the source package
 	ExplicitSame                 bool // -pkg names the source package itself (in place)
+	DestTest                     bool // -pkg <src>_test: the external test package (implies External)
 	SyncAliased                  bool // sync is imported under an alias
 	Mocks                        []MockShape
 }
@@ -85,6 +86,9 @@ func (e Env) String() string {
 	}
 	if e.ExplicitSame {
 		fl = append(fl, "pkg=same")
+	}
+	if e.DestTest {
+		fl = append(fl, "pkg=src_test")
 	}
 	var ms []string
 	for _, m := range e.Mocks {
@@ -535,6 +539,9 @@ func ownerID(v interp.Value) string {
 
 // PkgName is the package clause the output must carry.
 func (m *Model) PkgName() string {
+	if m.Env.DestTest {
+		return SrcPkgName + "_test"
+	}
 	if m.Env.External {
 		return DestPkgName
 	}
